@@ -353,8 +353,12 @@ INDIV_CHECKS = {
 }
 
 
+def optz(x):
+    return "None" if x is None else f"(Some {term(int(x))})"
+
+
 def call_term(gt, phased, ps):
-    return "(" + zl(gt) + ", " + term(bool(phased)) + ", " + ("None" if ps is None else f"(Some {term(int(ps))})") + ")"
+    return "(" + zl(gt) + ", " + term(bool(phased)) + ", " + optz(ps) + ")"
 
 
 def check_individual(ctx, items, label):
@@ -363,7 +367,7 @@ def check_individual(ctx, items, label):
     for it in items:
         comps = L(("(" + term(int(a)) + ", " + term(int(b)) + ")" for a, b in sorted(it["comps"].items())), "Z * Z")
         srs = L(("(" + term(int(p)) + ", " + zl(c) + ")" for p, c in it["srs"]), "Z * list Z")
-        recs = L(("(" + term(int(p)) + ", " + zl(g) + ")" for p, g in it["recs"]), "Z * list Z")
+        recs = L(("(" + term(int(p)) + ", " + zl(g) + ", " + optz(ps) + ")" for p, g, ps in it["recs"]), "inrec")
         outs = L(("(" + term(int(p)) + ", " + call_term(*c) + ")" for p, c in it["outs"]), "Z * rawcall")
         cases.append("(" + ", ".join([zl(it["acc"]), nlist(it["cuts"]), comps, zcols(it["cols"]),
                                       zcols(it["genos"]), srs, recs, outs]) + ")")
@@ -490,7 +494,7 @@ def make_cli_spec(rng, ploidy=None, deep=False):
     k = ploidy or rng.choice([3, 4])
     if deep:
         return dict(k=2, nsamples=1, nvars=5, seed=rng.randrange(1 << 30), sens=4, prephase=False, reference=False,
-                    deep=True, nreads=560)
+                    deep=True, nreads=720)
     return dict(k=k, nsamples=rng.choice([1, 2, 2]), nvars=rng.randint(8, 16), seed=rng.randrange(1 << 30),
                 sens=rng.randrange(6), prephase=rng.random() < 0.4, reference=rng.random() < 0.3, deep=False,
                 nreads=rng.randint(14, 30) * k)
@@ -632,11 +636,10 @@ def cli_case(ctx, spec, wd):
             obs = []
             for i in idx:
                 ci, co = fin.records[i].calls[si], fout.records[i].calls[si]
-                obs.append((fin.records[i].pos + 1, gtl(ci), gtl(co), co.phased, co.ps))
+                obs.append((fin.records[i].pos + 1, gtl(ci), ci.ps, gtl(co), co.phased, co.ps))
                 nphased += 1 if co.phased else 0
-            ot = L(("(" + ", ".join([term(int(p)), zl(gi), zl(go), term(bool(ph)),
-                                     "None" if ps is None else f"(Some {term(int(ps))})"]) + ")"
-                    for p, gi, go, ph, ps in obs), "obs")
+            ot = L(("(" + ", ".join([term(int(p)), zl(gi), optz(ips), zl(go), term(bool(ph)), optz(ps)]) + ")"
+                    for p, gi, ips, go, ph, ps in obs), "obs")
             samples_t.append("(" + zl([int(p) + 1 for p in a]) + ", " + ot + ")")
             info.append((s, chrom, a, obs, None))
 
@@ -683,7 +686,7 @@ def check_cli(ctx, runs, label):
                     msgs.append(f"sample {s} on {chrom} is not processed but its calls changed")
                     sig = sig or "cli:untouched-sample-changed"
                 continue
-            for p, gi, go, ph, ps in obs:
+            for p, gi, ips, go, ph, ps in obs:
                 if sorted(gi) != sorted(go):
                     msgs.append(f"{chrom}:{p} sample {s}: input genotype {gi} -> output {go}{' phased' if ph else ''}")
                     sig = sig or (SIG_UNDERFLOW if (s, chrom, p) in r["planted"] else "cli:genotype")
@@ -691,7 +694,7 @@ def check_cli(ctx, runs, label):
                     msgs.append(f"{chrom}:{p} sample {s}: homozygous genotype {gi} phased")
                     sig = sig or "cli:homozygous-phased"
             if not sig:
-                pairs = [(p, ps) for p, gi, go, ph, ps in obs if ph]
+                pairs = [(p, ps) for p, gi, ips, go, ph, ps in obs if ph]
                 msgs.append(f"sample {s} on {chrom}: phase sets {pairs} vs read-covered heterozygous variants {[x + 1 for x in a]}")
         if not sig:
             sig = "cli:intervals-or-frame"
@@ -789,7 +792,7 @@ def run(ctx):
         indiv.append(item)
         ctx.tally(f"matrix.ploidy{inst['k']}")
     for i in range(ctx.n(2, 12)):
-        inst = G.gen_matrix_instance(rng, k=rng.choice([2, 3]), nvars=rng.randint(3, 6), nreads=10, deep=True)
+        inst = G.gen_matrix_instance(rng, k=2, nvars=rng.randint(3, 6), nreads=10, deep=True)
         inst["deep"] = True
         ev, item = drive_individual(ctx, inst, wd, f"d{i}")
         item["deep"] = True
@@ -815,7 +818,11 @@ def run(ctx):
         s["sens"] = i % 6
         s["prephase"] = (i % 3 == 1) or s["prephase"]
         specs.append(s)
-    specs.append(make_cli_spec(rng, deep=True))
+    corpus_deep = make_cli_spec(rng, deep=True)      # corpus: the CLI-level witness of force:likelihood-underflow
+    corpus_deep["seed"] = 7
+    specs.append(corpus_deep)
+    for _ in range(ctx.n(0, 3)):
+        specs.append(make_cli_spec(rng, deep=True))
     for i, s in enumerate(specs):
         runs.append(cli_case(ctx, s, os.path.join(wd, f"cli{i}")))
     check_cli(ctx, runs, "synthetic")
